@@ -80,6 +80,8 @@ def _pure_expr(e) -> bool:
         return _pure_expr(e.value)
     if isinstance(e, ast.Subscript):
         return _pure_expr(e.value) and _pure_expr(e.slice)
+    if isinstance(e, ast.Slice):
+        return all(x is None or _pure_expr(x) for x in (e.lower, e.upper, e.step))
     if isinstance(e, ast.Compare):
         return _pure_expr(e.left) and all(_pure_expr(c) for c in e.comparators)
     if isinstance(e, ast.BoolOp):
@@ -419,7 +421,12 @@ class Canon:
         # assigned the argument before the body (arguments are evaluated left to right before the call, so this keeps order);
         # `pre` is None when the caller cannot take statements (expression position)
         stored = {n.id for n in _own_nodes(fn) if isinstance(n, ast.Name) and isinstance(n.ctx, (ast.Store, ast.Del))}
-        need_local = [p_ for p_, v in mapping.items() if (p_ in stored) or not (_simple(v) or _pure_literal(v))]
+        # (a rebound parameter bound to the caller's variable of the same name needs no local when the call statement assigns
+        # that variable anyway and no handler of the caller could observe the intermediate value)
+        overwritten = getattr(self, "_target_names", set())
+        need_local = [p_ for p_, v in mapping.items()
+                      if ((p_ in stored) and not (isinstance(v, ast.Name) and v.id == p_ and p_ in overwritten))
+                      or not (_simple(v) or _pure_literal(v))]
         if pre is None:
             return None if need_local else mapping
         order = [p_ for p_ in ([params_all[0]] if is_method and params_all else []) + params + [x.arg for x in fn.args.kwonlyargs] if p_ in need_local]
@@ -522,7 +529,41 @@ class Canon:
                 count += 1
                 return ast.copy_location(_Subst(m).visit(copy.deepcopy(e)), node)
 
-        def rewrite_block(stmts):
+        def split_tuple_assign(x):
+            """`a, b = (x, y)` -> `a = x; b = y` when no later value reads an earlier target"""
+            if not (isinstance(x, ast.Assign) and len(x.targets) == 1 and isinstance(x.targets[0], ast.Tuple)
+                    and isinstance(x.value, ast.Tuple) and len(x.value.elts) == len(x.targets[0].elts)
+                    and all(isinstance(t, ast.Name) for t in x.targets[0].elts)
+                    and not any(isinstance(v, ast.Starred) for v in x.value.elts)):
+                return [x]
+            names = [t.id for t in x.targets[0].elts]
+            for i, v in enumerate(x.value.elts):
+                if any(isinstance(n, ast.Name) and n.id in names[:i] for n in ast.walk(v)):
+                    return [x]
+            return [ast.Assign(targets=[ast.Name(id=t, ctx=ast.Store())], value=v) for t, v in zip(names, x.value.elts)]
+
+        def split_all(stmts):
+            out = []
+            for x in stmts:
+                for fld in ("body", "orelse"):
+                    if isinstance(x, ast.If):
+                        setattr(x, fld, split_all(getattr(x, fld)))
+                out.extend(split_tuple_assign(x))
+            return out
+
+        def drop_identities(stmts):
+            out = []
+            for x in stmts:
+                if isinstance(x, ast.If):
+                    x.body = drop_identities(x.body) or [ast.Pass()]
+                    x.orelse = drop_identities(x.orelse)
+                if isinstance(x, ast.Assign) and len(x.targets) == 1 \
+                        and ast.unparse(x.targets[0]).strip("()") == ast.unparse(x.value).strip("()"):
+                    continue
+                out.append(x)
+            return out
+
+        def rewrite_block(stmts, in_try=False):
             nonlocal count
             out = []
             for st in stmts:
@@ -543,7 +584,10 @@ class Canon:
                         fn, is_m, recv = r
                         pre: list = []
                         outer._caller_names = caller_names
+                        outer._target_names = set() if in_try or target is None else \
+                            {n.id for n in ast.walk(target) if isinstance(n, ast.Name)}
                         m = outer._bind(fn, call, is_m, recv, pre)
+                        outer._target_names = set()
                         if m is not None:
                             body = copy.deepcopy([s for s in fn.body if not _is_docstring(s)])
                             # helper locals that would clobber a caller name read later get a suffix
@@ -568,8 +612,7 @@ class Canon:
                                 new = None
                             if new is not None:
                                 # `a, b = (a, b)` left over from returning locals under their own names
-                                new = [x for x in new if not (isinstance(x, ast.Assign) and len(x.targets) == 1
-                                                              and ast.unparse(x.targets[0]).strip("()") == ast.unparse(x.value).strip("()"))]
+                                new = drop_identities(split_all(new))
                                 new = pre + new
                                 for x in new:
                                     ast.copy_location(x, st)
@@ -583,16 +626,16 @@ class Canon:
                     continue
                 for fld in ("body", "orelse", "finalbody"):
                     if hasattr(st, fld) and isinstance(getattr(st, fld), list) and not isinstance(st, (ast.FunctionDef, ast.AsyncFunctionDef, ast.ClassDef)):
-                        setattr(st, fld, rewrite_block(getattr(st, fld)))
+                        getattr(st, fld)[:] = rewrite_block(getattr(st, fld), in_try or isinstance(st, ast.Try))
                 if isinstance(st, ast.Try):
                     for h in st.handlers:
-                        h.body = rewrite_block(h.body)
+                        h.body = rewrite_block(h.body, True)
                 if not isinstance(st, (ast.FunctionDef, ast.AsyncFunctionDef, ast.ClassDef)):
                     st = ExprInliner().visit(st)
                 out.append(st)
             return out
 
-        caller.body = rewrite_block(caller.body)
+        caller.body[:] = rewrite_block(caller.body)  # in place: `container` lists of nested helpers stay valid
         ast.fix_missing_locations(caller)
         if count:
             _renumber(caller)
@@ -1017,6 +1060,7 @@ class Canon:
         self.drop_local_annotations()
         self.fold_len()
         self.fold_constants()
+        self.fold_len()  # len(NEW_CONSTANT) after the constant has been folded into its uses
         self.inline_helpers()
         self.unroll_reflective_loops()
         self.normalise_empty_arms()
